@@ -203,6 +203,7 @@ func (db *RockDB) SAdd(ts int64, key []byte, args ...[]byte) (int64, error) {
 
 	var ek []byte
 	var num int64 = 0
+	args = dedupMembers(args)
 	for i := 0; i < len(args); i++ {
 		if err := checkCollKFSize(key, args[i]); err != nil {
 			return 0, err
@@ -373,6 +374,7 @@ func (db *RockDB) SRem(ts int64, key []byte, args ...[]byte) (int64, error) {
 	var ek []byte
 
 	var num int64 = 0
+	args = dedupMembers(args)
 	for i := 0; i < len(args); i++ {
 		if err := checkCollKFSize(key, args[i]); err != nil {
 			return 0, err
